@@ -14,11 +14,14 @@ Also holds the helpers shared with b_C02 (document comparison, feature labels, e
 """
 from __future__ import annotations
 
+import codecs
 import datetime as dt
 import functools
+import io
 import itertools
 import os
 import random
+import re
 import shutil
 import xml.etree.ElementTree as StdET
 
@@ -50,7 +53,7 @@ XSL_STYLESHEET_TAG = '{http://www.w3.org/1999/XSL/Transform}stylesheet'
 # ---------------------------------------------------------------------------------------------
 CHAR_NAMES = {' ': 'space', ',': 'comma', '"': 'quote', '[': 'lbracket', ']': 'rbracket', '(': 'lparen',
               ')': 'rparen', ';': 'semicolon', '\n': 'newline', '<': 'lt', '>': 'gt', '&': 'amp',
-              "'": 'apostrophe', '\t': 'tab'}
+              "'": 'apostrophe', '\t': 'tab', '\r': 'cr'}
 
 
 def text_marks(s, pos):
@@ -378,6 +381,92 @@ def doc_retypable():
             odml.Property(name='enum_%s' % member.name, dtype=member, values=None, parent=sec3)
         odml.Property(name='enum_float', dtype=odml.DType.float, values=[1.5, 2.5], parent=sec3)
     return doc
+
+
+# Non-ASCII text by the smallest character set that holds it. 'latin1' fits ISO-8859-1, 'cp1252' needs the
+# windows-1252 extension block (0x80-0x9F, where it differs from ISO-8859-1), 'bmp' needs a Unicode encoding,
+# 'astral' needs surrogate pairs in UTF-16 / four bytes in UTF-8; 'forms' are strings that only stay what they
+# are when nothing normalises them (combining sequences, compatibility characters, no-break space inside).
+REPERTOIRES = {
+    'latin1': ['Jürgen Müller', 'Größe', 'Körpergröße ×2', 'µm',
+               'mäßig, klein', 'été', 'ÿ¡¿'],
+    'cp1252': ['€uro', '“quoted”', 'en–dash—em', 'œuvre Šž', '™…',
+               '‰ ‹x›'],
+    'bmp': ['Ωμέγα', 'Жук', '日本語', 'עברית',
+            '√∑ ≠'],
+    'astral': ['\U0001F600 smile', '\U0001D518\U0001D52B\U0001D526', '\U00010348', '\U0001F1E9\U0001F1EA flag'],
+    'forms': ['a\u0301 e\u0301', '\u212b not \u00c5', '\ufb01 ligature', 'no\u00a0break', 'zero\u200bwidth',
+              '\u00c5 precomposed'],
+}
+
+
+def doc_nonascii(rep):
+    """Non-ASCII text of one repertoire in every text carrying attribute: author, version, names, types,
+    definitions, references, units, dependencies, value origins and the values of every textual dtype."""
+    texts = REPERTOIRES[rep]
+    with h.quiet():
+        doc = odml.Document(author=texts[0], version=texts[1 % len(texts)], date=dt.date(2022, 3, 4))
+        for i, t in enumerate(texts):
+            u = texts[(i + 1) % len(texts)]
+            sec = odml.Section(name=t, type='typ ' + u, parent=doc, definition=t + ' / ' + u, reference=u)
+            odml.Property(name=t, dtype='string', values=[t, u, 'x, ' + t], parent=sec, unit=u, definition=t,
+                          reference=u, dependency=t, dependency_value=u, value_origin=t)
+            odml.Property(name='single ' + u, dtype='string', values=[t], parent=sec)
+            odml.Property(name='text', dtype='text', values=[t + '\n' + u], parent=sec)
+            odml.Property(name='person', dtype='person', values=[u + ', ' + t], parent=sec)
+            odml.Property(name='tuple', dtype='2-tuple', values=['(%s;%s)' % (t, u), '(%s;x)' % u], parent=sec)
+            odml.Section(name=u + ' sub', type=t, parent=sec, definition=u)
+    return doc
+
+
+def doc_line_breaks():
+    """Carriage returns and CR LF inside values and attributes (XML parsers turn a literal CR into LF, so a
+    writer has to write them as character references)."""
+    with h.quiet():
+        doc = odml.Document(author='a\rb', version='v\r\nw')
+        sec = odml.Section(name='cr\rname', type='t', parent=doc, definition='d\r\ne', reference='r\rs')
+        for i, vals in enumerate([['a\rb'], ['a\r\nb'], ['a\rb', 'c'], ['c', 'a\r\nb'], ['a\n\rb', 'x\ry', 'z'],
+                                  ['tab\there', 'a\tb']]):
+            odml.Property(name='lb%d' % i, dtype='string', values=list(vals), parent=sec, unit='u\rv',
+                          definition='p\r\nq')
+        odml.Property(name='txt', dtype='text', values=['l1\r\nl2\rl3\nl4'], parent=sec)
+    return doc
+
+
+TUPLE_BREAK_DOCS = {
+    'tuple_newline_single': ['(a\nb;c)'],
+    'tuple_newline_several': ['(d;e)', '(f;g\nh)'],
+    'tuple_cr_single': ['(a\rb;c)'],
+    'tuple_crlf_several': ['(a\r\nb;c)', '(d;e)'],
+    'tuple_tab_single': ['(a\tb;c)'],
+}
+
+
+def doc_tuple_break(key):
+    """n-tuple with a line break / tab inside an element (own documents: a reader may refuse the whole file)."""
+    with h.quiet():
+        doc = odml.Document()
+        sec = odml.Section(name='tup', type='t', parent=doc)
+        odml.Property(name='tb', dtype='2-tuple', values=list(TUPLE_BREAK_DOCS[key]), parent=sec)
+    return doc
+
+
+def c01_extra_documents():
+    """Documents of the XML checks only (b_C02 shares documents() and does not get these unless it asks)."""
+    for rep in sorted(REPERTOIRES):
+        yield 'nonascii_' + rep, doc_nonascii(rep)
+    yield 'line_breaks', doc_line_breaks()
+    for key in sorted(TUPLE_BREAK_DOCS):
+        yield key, doc_tuple_break(key)
+
+
+def c01_documents(tier, seed):
+    """(label, doc, rich): documents() plus the XML-only ones; rich marks the fixed documents, which get the full
+    cross product of input forms and entry points (the generated ones get a rotating selection)."""
+    for label, doc in documents(tier, seed):
+        yield label, doc, not label.startswith('gen_docs')
+    for label, doc in c01_extra_documents():
+        yield label, doc, True
 
 
 def documents(tier, seed, extra=()):
